@@ -33,13 +33,14 @@ def showSt (s : St Float) : String :=
 def showRes (r : Res Float) : String :=
   s!"{showHalt r.halt} {showList showEv r.evs} {showSt r.st}"
 
-/-- `dmrg.run n steps tol maxSweeps times energies`
+/-- `dmrg.run variant n steps tol maxSweeps times energies` (variant 0 = as found, 1 = repaired)
     → `reject` | `<halt> <events> <state> <finished>` -/
 def runF (args : List String) : Option String := do
   match args with
-  | [n, steps, tol, ms, times, es] =>
+  | [v, n, steps, tol, ms, times, es] =>
     let cfg : Cfg Float := { n := ← n.toNat?, steps := ← steps.toNat?, tol := ← parseF tol,
-                             maxSweeps := ← ms.toNat?, times := ← parseList parseF times }
+                             maxSweeps := ← ms.toNat?, times := ← parseList parseF times,
+                             resetPrev := ← parseB v }
     let es ← parseList parseF es
     match init cfg with
     | none => some "reject"
@@ -48,13 +49,14 @@ def runF (args : List String) : Option String := do
       some s!"{showRes r} {showB (finished cfg r.st)}"
   | _ => none
 
-/-- `dmrg.step n steps tol maxSweeps times dir idx left right centre prev cur sweepCount tsIndex curT tgtT e`
+/-- `dmrg.step variant n steps tol maxSweeps times dir idx left right centre prev cur sweepCount tsIndex curT tgtT e`
     — one `progress()` from an arbitrary (not necessarily reachable) unfinished object. -/
 def stepF (args : List String) : Option String := do
   match args with
-  | [n, steps, tol, ms, times, dir, idx, left, right, centre, prev, cur, sc, ts, curT, tgtT, e] =>
+  | [v, n, steps, tol, ms, times, dir, idx, left, right, centre, prev, cur, sc, ts, curT, tgtT, e] =>
     let cfg : Cfg Float := { n := ← n.toNat?, steps := ← steps.toNat?, tol := ← parseF tol,
-                             maxSweeps := ← ms.toNat?, times := ← parseList parseF times }
+                             maxSweeps := ← ms.toNat?, times := ← parseList parseF times,
+                             resetPrev := ← parseB v }
     let s : St Float := { dir := ← parseDir dir, idx := ← idx.toNat?, left := ← left.toNat?,
                           right := ← right.toNat?, centre := ← centre.toNat?, prevE := ← parseO prev,
                           curE := ← parseO cur, sweepCount := ← sc.toNat?, tsIndex := ← ts.toNat?,
